@@ -164,7 +164,15 @@ func runC16(cfg *vh.Config) error {
 				prefix = "C16 package with property names whose JSON name is not the protobuf default (fooID, a1b, HTTPServer)"
 			}
 			if bad != nil {
-				res.Fail(vh.Failure{Case: caseNo, Stream: stream, Sig: fmt.Sprintf("%s -> stage %s %s: %s", prefix, bad.Name, bad.Status, failureClass(bad.Msg)),
+				sig := fmt.Sprintf("%s -> stage %s %s: %s", prefix, bad.Name, bad.Status, failureClass(bad.Msg))
+				// two input classes the compiler accepts and a later stage cannot take (NOTICE-4): one signature each
+				switch {
+				case p.Clash == "case" && strings.Contains(bad.Msg, "camel-case name"):
+					sig = "C16 valid package with enum options that differ only in case (Active, ACTIVE) -> stage image err: camel-case name conflict of enum values"
+				case p.Clash == "split" && strings.Contains(bad.Msg, "interface conversion") && strings.Contains(bad.Msg, "EnumSchema"):
+					sig = "C16 valid package with object SplitHost_Kind next to SplitHost's inline enum kind -> stage " + bad.Name + " " + bad.Status + ": split-name collision (buildEnumFieldSchema)"
+				}
+				res.Fail(vh.Failure{Case: caseNo, Stream: stream, Sig: sig,
 					Clause: "the compiled output can be turned into image, source API, client API, J5 JSON and OpenAPI without error or crash", Input: input, Got: bad})
 			} else {
 				oracleClient(res, caseNo, stream, prefix, p, r, input)
